@@ -191,6 +191,9 @@ func (env *SpecEnv) eval(e Expr, hint types.Type) Value {
 			tc.usesDyn = true
 			return Term{S: "Dyn_nil", T: hint}
 		}
+		if _, isSlice := hint.Underlying().(*types.Slice); isSlice {
+			return Term{S: tc.zero(hint), T: hint}
+		}
 		return Term{S: "0", T: hint}
 	case EIdent:
 		return env.ident(x.Name, hint)
@@ -362,6 +365,18 @@ func (env *SpecEnv) quant(x EQuant) Value {
 
 func (env *SpecEnv) ident(name string, hint types.Type) Value {
 	ex := env.ex
+	// a parameter is a mutable cell: outside old() its name denotes the current value
+	if env.fr != nil && !env.inOld && env.fr.fn != nil {
+		if _, isParam := env.fr.params[name]; isParam {
+			if a := env.fr.paramCell(name); a != nil {
+				if v, ok := env.st.cells[a]; ok {
+					if t, isT := v.(Term); isT {
+						return t
+					}
+				}
+			}
+		}
+	}
 	if v, ok := env.vars[name]; ok {
 		if p, isP := v.(Ptr); isP {
 			return env.ex.load(env.st, p.Loc)
@@ -756,4 +771,23 @@ func callbackElemType(fn *ssa.Function) types.Type {
 		}
 	}
 	return nil
+}
+
+// paramCell: the local cell a parameter is copied into on entry (naive-form SSA), if any.
+func (fr *Frame) paramCell(name string) *ssa.Alloc {
+	if fr.pcells == nil {
+		fr.pcells = map[string]*ssa.Alloc{}
+		if len(fr.fn.Blocks) > 0 {
+			for _, in := range fr.fn.Blocks[0].Instrs {
+				if st, ok := in.(*ssa.Store); ok {
+					if p, ok := st.Val.(*ssa.Parameter); ok {
+						if a, ok := st.Addr.(*ssa.Alloc); ok {
+							fr.pcells[p.Name()] = a
+						}
+					}
+				}
+			}
+		}
+	}
+	return fr.pcells[name]
 }
